@@ -39,7 +39,7 @@ func runC11(c *core.Ctx) {
 	c.Rule("R5", "terminal error returns before resultTracker.done", 1)
 	c.Rule("R6", "at most one call per instance", 1)
 	c.Rule("R7", "ReplicationSet.Do: per-goroutine delay timers", 1)
-	c.Rule("R8", "DoUntilQuorum and the single-set case of DoMultiUntilQuorum… delegate to the analysed function", 2)
+	c.Rule("R8", "DoUntilQuorum and DoMultiUntilQuorum… delegate to the analysed functions with arguments, configuration and results untouched", 4)
 	c.Rule("R10", "multi-set read: every worker reads its set, failures recorded once, successes appended in full, answer after Wait", 3)
 	c.Rule("R9", "result trackers: success / failure / inclusion predicates and thresholds", 8)
 	pkg := c.Prog.Pkg("ring")
@@ -649,6 +649,24 @@ func c11Entry(c *core.Ctx) {
 			}
 			return true
 		})
+		// the adapter hands f's results back untouched: its body is the single statement `return f(ctx, instance)`
+		pure := false
+		for _, lf := range fn.AllLits() {
+			calls := 0
+			for _, call := range lf.Calls(false) {
+				if lf.Canon(call.Expr.Fun) == "p3" {
+					calls++
+				}
+			}
+			if calls == 1 && len(lf.Body().List) == 1 {
+				if r, isRet := lf.Body().List[0].(*ast.ReturnStmt); isRet && len(r.Results) == 1 {
+					if call, isCall := an.Unparen(r.Results[0]).(*ast.CallExpr); isCall && lf.Canon(call.Fun) == "p3" {
+						pure = true
+					}
+				}
+			}
+		}
+		c.Check(pure, "R8", "func=DoUntilQuorum:adapter", fn.Pos(), "the adapter around f is `return f(ctx, instance)`: a result is never replaced or dropped between f and the accounting (every success reaches the returned set or the cleanup)", 1)
 		c.Check(ok && nret == 1 && adapters == 1 && deferred, "R8", "func=DoUntilQuorum", fn.Pos(), fmt.Sprintf("single return delegating to the analysed function with a cancellable child context whose cancel is deferred (=%v) and an adapter that calls f once (=%d): %s", deferred, adapters, rc), 1)
 	} else {
 		c.Miss("R8", "func=DoUntilQuorum", "not found")
@@ -690,6 +708,30 @@ func c11Entry(c *core.Ctx) {
 			_ = t
 		}
 		c.Check(ok, "R8", "func=DoMultiUntilQuorumWithoutSuccessfulContextCancellation:single", fn.Pos(), fmt.Sprintf("with exactly one replication set the call is delegated unchanged to the analysed single-set function (returns: %v)", rcs), 3)
+		// the multi-set path hands its arguments on unchanged, and the configuration is not modified on the way
+		multi := fn.CallsTo(false, "ring", "doMultiUntilQuorumWithoutSuccessfulContextCancellation")
+		okM := len(multi) == 1 && len(multi[0].Expr.Args) == 5
+		argsM := []string{}
+		if okM {
+			for i, a := range multi[0].Expr.Args {
+				argsM = append(argsM, fn.Canon(a))
+				if fn.Canon(a) != fmt.Sprintf("p%d", i) {
+					okM = false
+				}
+			}
+		}
+		writesCfg := 0
+		fn.InspectDeep(func(n ast.Node) bool {
+			if as, ok := n.(*ast.AssignStmt); ok {
+				for _, l := range as.Lhs {
+					if lc := fn.Canon(l); lc == "p2" || strings.HasPrefix(lc, "p2.") || lc == "p3" || lc == "p4" {
+						writesCfg++
+					}
+				}
+			}
+			return true
+		})
+		c.Check(okM && writesCfg == 0, "R8", "func=DoMultiUntilQuorumWithoutSuccessfulContextCancellation:multi", fn.Pos(), fmt.Sprintf("with several sets the call is handed on as (ctx, sets, cfg, f, cleanup) unchanged (args %v) and neither the configuration nor the callbacks are reassigned (%d writes): the per-set reads run with the caller's error classification", argsM, writesCfg), 1)
 	}
 }
 
